@@ -139,29 +139,6 @@ func (e *kvElection) heartbeatLoop(ctx context.Context) {
 					e.cfg.Metrics.ObserveHeartbeatDuration(duration, labels)
 				}
 
-				// Check if it's a revision mismatch (possible priority takeover)
-				// Revision mismatch errors contain "revision mismatch" in the message
-				if strings.Contains(strings.ToLower(updateErr.Error()), "revision mismatch") {
-					// Get current leader to check if it's a priority takeover
-					entry, getErr := e.kv.Get(e.key)
-					if getErr == nil && entry != nil {
-						var currentPayload leadershipPayload
-						if json.Unmarshal(entry.Value(), &currentPayload) == nil {
-							if currentPayload.ID != e.cfg.InstanceID {
-								// We were taken over!
-								log.Warn("leadership_taken_over",
-									append(e.logWithContext(ctx),
-										zap.String("new_leader", currentPayload.ID),
-										zap.Int("new_priority", currentPayload.Priority),
-										zap.Int("our_priority", e.cfg.Priority),
-										zap.Uint64("revision", entry.Revision()),
-									)...,
-								)
-							}
-						}
-					}
-				}
-
 				if IsPermanentError(updateErr) {
 					log.Error("heartbeat_failed",
 						append(e.logWithContext(ctx),
@@ -173,6 +150,12 @@ func (e *kvElection) heartbeatLoop(ctx context.Context) {
 					)
 					e.recordFailure(errorType)
 					e.handleHeartbeatFailure(updateErr)
+					// Revision mismatch errors contain "revision mismatch" in the
+					// message. Who took over is looked up for the log only, after
+					// the demotion: the read may be slow or hang.
+					if strings.Contains(strings.ToLower(updateErr.Error()), "revision mismatch") {
+						e.logTakeover(ctx)
+					}
 					return
 				}
 
@@ -246,4 +229,32 @@ func (e *kvElection) handleHealthCheckFailure() {
 		return
 	}
 	e.runOnDemote("health_check_failure")
+}
+
+// logTakeover reads the record after a revision mismatch and logs the new
+// leader if the instance was taken over (possible priority takeover).
+func (e *kvElection) logTakeover(ctx context.Context) {
+	if e.stopped() {
+		return
+	}
+	entry, getErr := e.kv.Get(e.key)
+	if getErr != nil || entry == nil {
+		return
+	}
+	var currentPayload leadershipPayload
+	if json.Unmarshal(entry.Value(), &currentPayload) != nil {
+		return
+	}
+	if currentPayload.ID != e.cfg.InstanceID {
+		// We were taken over!
+		log := e.getLogger()
+		log.Warn("leadership_taken_over",
+			append(e.logWithContext(ctx),
+				zap.String("new_leader", currentPayload.ID),
+				zap.Int("new_priority", currentPayload.Priority),
+				zap.Int("our_priority", e.cfg.Priority),
+				zap.Uint64("revision", entry.Revision()),
+			)...,
+		)
+	}
 }
